@@ -2,6 +2,7 @@
 """Fills seeded/<id>/meta.json (detected_by, needs_to_manifest) from the matrix files and notes."""
 import json,os,glob,re,collections
 rows=collections.defaultdict(dict)
+hist=collections.defaultdict(list)
 for f in sorted(glob.glob('/verif/seeded/MATRIX.*.tsv')):
     tier=os.path.basename(f).split('.')[1]
     if tier not in ('quick','thorough'): continue
@@ -11,6 +12,7 @@ for f in sorted(glob.glob('/verif/seeded/MATRIX.*.tsv')):
         sid,chk,res=p[0],p[1],p[2]
         clause=p[3] if len(p)>3 else ''
         rows[sid][(chk,tier)]=(res,clause)   # later lines override earlier ones
+        hist[(sid,chk,tier)].append(res)
 for d in sorted(glob.glob('/verif/seeded/*/')):
     sid=os.path.basename(d.rstrip('/'))
     mp=os.path.join(d,'meta.json')
@@ -26,7 +28,10 @@ for d in sorted(glob.glob('/verif/seeded/*/')):
     det=[];miss=[]
     for (chk,tier),(res,clause) in sorted(rows.get(sid,{}).items()):
         if res=='exit=1': det.append(f"{chk} {tier}"+(f" ({clause.strip()})" if clause else ''))
-        elif res.startswith('exit='): miss.append(f"{chk} {tier}")
+        elif res.startswith('exit='):
+            h=hist[(sid,chk,tier)]
+            hits=sum(1 for x in h if x=='exit=1')
+            miss.append(f"{chk} {tier}"+(f" (caught in {hits} of {len(h)} runs: the window is hit statistically)" if hits else ''))
     meta['detected_by']=det
     meta['not_detected_by']=miss
     json.dump(meta,open(mp,'w'),indent=1)
